@@ -220,10 +220,13 @@ class SimLog:
         self.capture = _Capture()
         self.faulty: _Faulty | None = None
 
-    def install(self):
+    def install(self, level="DEBUG"):
+        """`level`: the root level of this run (a knob: the application decides how verbose
+        logging is; DEBUG lets the capture handler see every record, WARNING is what an
+        unconfigured process runs with)."""
         self._saved = (list(self.root.handlers), self.root.level, logging.raiseExceptions)
         self.root.handlers = [self.capture]
-        self.root.setLevel(logging.DEBUG)
+        self.root.setLevel(getattr(logging, str(level), logging.DEBUG))
         self.capture.records = []
 
     def uninstall(self):
